@@ -24,7 +24,7 @@ enum Edge { Pred, Succ, Mult(i64) }
 #[derive(Clone, Copy, PartialEq, Debug)]
 enum Filt { None, Gt(i64), NeRoot, LeRoot }
 #[derive(Clone, Debug)]
-struct Node { edge: Edge, scope: Scope, filter: Filt, children: Vec<Node> }
+struct Node { edge: Edge, scope: Scope, filter: Filt, out: bool, children: Vec<Node> }
 
 // ---------------------------------------------------------------- dataset (independent of the adapter)
 fn is_prime(n: i64) -> bool { n >= 2 && (2..n).take_while(|d| d * d <= n).all(|d| n % d != 0) }
@@ -48,7 +48,8 @@ fn render(nodes: &[Node], idx: &mut usize, out: &mut String) {
             Scope::Recurse(d) => format!("@recurse(depth: {d})"),
         };
         let filt = match n.filter { Filt::None => String::new(), Filt::Gt(x) => format!(r#"@filter(op: ">", value: ["$x{x}"])"#), Filt::NeRoot => r#"@filter(op: "!=", value: ["%root"])"#.into(), Filt::LeRoot => r#"@filter(op: "<=", value: ["%root"])"#.into() };
-        out.push_str(&format!("{edge} {dir} {{ value @output(name: \"o{my}\") {filt} "));
+        let o = if n.out { format!("@output(name: \"o{my}\")") } else { String::new() };
+        out.push_str(&format!("{edge} {dir} {{ value {o} {filt} "));
         render(&n.children, idx, out);
         out.push_str("} ");
     }
@@ -73,7 +74,7 @@ fn passes(f: Filt, v: Option<i64>, root: i64) -> bool {
 fn null_names(nodes: &[Node], idx: &mut usize, out: &mut R) {
     for n in nodes {
         let my = *idx; *idx += 1;
-        out.insert(format!("o{my}"), FieldValue::Null);
+        if n.out { out.insert(format!("o{my}"), FieldValue::Null); }
         if n.scope == Scope::FoldCountOut { out.insert(format!("c{my}"), FieldValue::Null); }
         null_names(&n.children, idx, out);
     }
@@ -100,7 +101,7 @@ fn rows_of_edges(nodes: &[Node], base: usize, v: Option<i64>, root: i64) -> Vec<
 fn rows_at_vertex(n: &Node, my: usize, w: Option<i64>, root: i64) -> Vec<R> {
     if !passes(n.filter, w, root) { return vec![]; }
     let mut base = R::new();
-    base.insert(format!("o{my}"), w.map(ival).unwrap_or(FieldValue::Null));
+    if n.out { base.insert(format!("o{my}"), w.map(ival).unwrap_or(FieldValue::Null)); }
     rows_of_edges(&n.children, my + 1, w, root).into_iter().map(|mut r| { r.extend(base.clone()); r }).collect()
 }
 fn lists_from(rows: &[R], names: &R) -> R {
@@ -147,7 +148,7 @@ fn leaf_variants() -> Vec<Node> {
     for edge in [Edge::Pred, Edge::Succ, Edge::Mult(3)] {
         for scope in [Scope::Plain, Scope::Optional, Scope::Fold, Scope::FoldCountGe(1), Scope::FoldCountGe(2), Scope::FoldCountOut, Scope::Recurse(2)] {
             if matches!(scope, Scope::Recurse(_)) && matches!(edge, Edge::Mult(_)) { continue; } // multiple() is not recursable
-            for filter in [Filt::None, Filt::Gt(2), Filt::NeRoot, Filt::LeRoot] { v.push(Node { edge, scope, filter, children: vec![] }); }
+            for filter in [Filt::None, Filt::Gt(2), Filt::NeRoot, Filt::LeRoot] { v.push(Node { edge, scope, filter, out: true, children: vec![] }); }
         }
     }
     v
@@ -192,7 +193,7 @@ pub(crate) fn c01_grid_semantics_depth1_and_pairs() {
     check_family("c01_grid_semantics_depth1_and_pairs", trees, 0, 6);
 }
 
-// @grid c01_grid_semantics_nested tier=quick bound="numbers 0..5; every 2-level nesting (outer x inner from all 80 single-edge variants restricted to 24 outer x 80 inner) and 3-level chains over 8 scope/edge variants"
+// @grid c01_grid_semantics_nested tier=quick bound="numbers 0..5; 2-level nestings (27 outer x 80 inner variants; plus every fold/optional outer without an output of its own x 80 inner) and 3-level chains over 8 scope/edge variants"
 // @ob same obligation for nested scopes: folds in folds (lists of lists), optionals in folds (null elements), folds under missing optionals (null, not empty), recursion under optionals, count filters and count outputs at inner levels
 pub(crate) fn c01_grid_semantics_nested() {
     let leaves = leaf_variants();
@@ -200,11 +201,18 @@ pub(crate) fn c01_grid_semantics_nested() {
     let mut trees: Vec<Vec<Node>> = Vec::new();
     for o in &outers { for i in &leaves { let mut t = o.clone(); t.children = vec![i.clone()]; trees.push(vec![t]); } }
     let small: Vec<Node> = [(Edge::Pred, Scope::Optional), (Edge::Pred, Scope::Fold), (Edge::Succ, Scope::Plain), (Edge::Succ, Scope::FoldCountOut), (Edge::Mult(2), Scope::Fold), (Edge::Mult(2), Scope::FoldCountGe(1)), (Edge::Pred, Scope::Recurse(2)), (Edge::Mult(2), Scope::Optional)]
-        .iter().map(|(e, s)| Node { edge: *e, scope: *s, filter: Filt::None, children: vec![] }).collect();
+        .iter().map(|(e, s)| Node { edge: *e, scope: *s, filter: Filt::None, out: true, children: vec![] }).collect();
     for a in &small { for b in &small { for c in &small {
         let mut bb = b.clone(); bb.children = vec![c.clone()];
         let mut aa = a.clone(); aa.children = vec![bb];
         trees.push(vec![aa]);
     } } }
+    // scopes whose own vertex has no @output (folds with no outputs of their own, count filters only)
+    for o in &leaves { for i in &leaves {
+        if !matches!(o.scope, Scope::Fold | Scope::FoldCountGe(_) | Scope::Optional) { continue; }
+        let mut t = o.clone(); t.out = false; t.children = vec![i.clone()]; trees.push(vec![t.clone()]);
+        let mut i2 = i.clone(); i2.out = false;
+        if matches!(i2.scope, Scope::FoldCountOut | Scope::FoldCountGe(_)) { t.children = vec![i2]; trees.push(vec![t]); }
+    } }
     check_family("c01_grid_semantics_nested", trees, 0, 5);
 }
